@@ -1,6 +1,328 @@
-(* Regex.v — placeholder until the regex model lands: every pattern is "unsupported". *)
-From Coq Require Import List NArith.
+(* Regex.v — the regular-expression dialect of match()/search() (C10).
+   [re]: abstract syntax.  [re_parse]: a recursive-descent parser for the part of the syntax of the
+   `regex` crate that is also I-Regexp (RFC 9485) plus anchors and (?: ) groups, with three
+   outcomes: a regular expression, invalid (both the crate and RFC 9485 reject it), or unsupported
+   (outside the modelled dialect: the check skips such patterns, nothing is claimed about them).
+   [ends]: executable semantics by sets of end positions (anchors are absolute positions).
+   The `regex` crate itself is external: this model is validated against it on every run. *)
+From Coq Require Import List NArith ZArith Bool.
 From JP Require Import Base.
-Definition rx_model_search (pat subject : str) : option bool := None.
-Definition rx_spec_full (pat subject : str) : bool := false.
-Definition rx_spec_sub (pat subject : str) : bool := false.
+Import ListNotations.
+
+Inductive re :=
+| RChar (c : N)
+| RAny (cr : bool)                 (* . : any character but LF; [cr] = also excludes CR *)
+| RClass (neg : bool) (rs : list (N * N))
+| REps
+| RCat (a b : re)
+| RAlt (a b : re)
+| RStar (a : re)
+| RPlus (a : re)
+| ROpt (a : re)
+| RRep (a : re) (lo : nat) (hi : option nat)     (* a{lo,hi} ; hi = None: unbounded *)
+| RBegin
+| REnd.
+
+Inductive pres := PValid (r : re) | PInvalid | PUnsupported.
+
+(* ---------- parser ---------- *)
+Definition is_digit_c (c : N) : bool := (N.leb 48 c && N.leb c 57)%N.
+(* punctuation that may be escaped with a backslash: ( ) * + - . ? [ \ ] ^ { | } $ / *)
+Definition esc_punct (c : N) : bool :=
+  existsb (N.eqb c) [40; 41; 42; 43; 45; 46; 63; 91; 92; 93; 94; 123; 124; 125; 36; 47]%N.
+(* characters with a meaning of their own outside a class *)
+Definition meta (c : N) : bool :=
+  existsb (N.eqb c) [40; 41; 42; 43; 46; 63; 91; 92; 93; 94; 123; 124; 125; 36]%N.
+
+Inductive rp (A : Type) := XOk (x : A) (rest : str) | XBad | XUns.
+Arguments XOk {A}. Arguments XBad {A}. Arguments XUns {A}.
+
+Fixpoint take_num (s : str) (acc : nat) (seen : bool) : option nat * str :=
+  match s with
+  | c :: r => if is_digit_c c then take_num r (acc * 10 + N.to_nat (c - 48)) true
+              else ((if seen then Some acc else None), s)
+  | [] => ((if seen then Some acc else None), [])
+  end.
+
+(* one character of a class (after escapes): returns the character *)
+Definition esc_char (c : N) : option N :=
+  if esc_punct c then Some c
+  else if N.eqb c 110 then Some 10%N else if N.eqb c 114 then Some 13%N else if N.eqb c 116 then Some 9%N
+  else None.
+Definition class_char (s : str) : rp N :=
+  match s with
+  | [] => XBad
+  | c :: r =>
+      if N.eqb c 92 then
+        match r with
+        | [] => XBad
+        | e :: r2 => match esc_char e with Some x => XOk x r2 | None => XUns end
+        end
+      else if N.eqb c 91 || N.eqb c 93 || N.eqb c 94 || N.eqb c 45 then XUns
+      else XOk c r
+  end.
+
+Fixpoint class_items (fuel : nat) (s : str) (acc : list (N * N)) : rp (list (N * N)) :=
+  match fuel with
+  | O => XUns
+  | S f =>
+      match s with
+      | [] => XBad
+      | c :: r =>
+          if N.eqb c 93 then match acc with [] => XUns | _ => XOk (rev acc) r end      (* ] ; "[]" is not modelled *)
+          else
+            match class_char s with
+            | XOk lo r1 =>
+                match r1 with
+                | d :: r2 =>
+                    if N.eqb d 45 then
+                      match r2 with
+                      | e :: _ =>
+                          if N.eqb e 93 then XUns                   (* trailing '-' : not modelled *)
+                          else match class_char r2 with
+                               | XOk hi r3 => if N.leb lo hi then class_items f r3 ((lo, hi) :: acc) else XBad
+                               | XBad => XBad
+                               | XUns => XUns
+                               end
+                      | [] => XBad
+                      end
+                    else class_items f r1 ((lo, lo) :: acc)
+                | [] => XBad
+                end
+            | XBad => XBad
+            | XUns => XUns
+            end
+      end
+  end.
+
+(* quantifier after an atom; a second quantifier or a lazy/possessive suffix is not modelled *)
+Definition is_quant_char (c : N) : bool := N.eqb c 42 || N.eqb c 43 || N.eqb c 63 || N.eqb c 123.
+Definition after_quant (r : re) (s : str) : rp re :=
+  match s with
+  | c :: _ => if is_quant_char c then XUns else XOk r s
+  | [] => XOk r s
+  end.
+Definition p_quant (a : re) (s : str) : rp re :=
+  match s with
+  | [] => XOk a s
+  | c :: r =>
+      if N.eqb c 42 then after_quant (RStar a) r
+      else if N.eqb c 43 then after_quant (RPlus a) r
+      else if N.eqb c 63 then after_quant (ROpt a) r
+      else if N.eqb c 123 then
+        match take_num r 0 false with
+        | (Some lo, d :: r2) =>
+            if N.eqb d 125 then after_quant (RRep a lo (Some lo)) r2
+            else if N.eqb d 44 then
+              match take_num r2 0 false with
+              | (Some hi, e :: r3) =>
+                  if N.eqb e 125 then (if Nat.leb lo hi then after_quant (RRep a lo (Some hi)) r3 else XBad) else XBad
+              | (None, e :: r3) => if N.eqb e 125 then after_quant (RRep a lo None) r3 else XBad
+              | _ => XBad
+              end
+            else XBad
+        | _ => XBad
+        end
+      else XOk a s
+  end.
+
+Definition is_anchor (r : re) : bool := match r with RBegin | REnd => true | _ => false end.
+
+(* alt := cat ('|' cat)* ; cat := piece* ; both stop at ')' and at the end of the input *)
+Fixpoint p_alt (fuel : nat) (s : str) : rp re :=
+  match fuel with
+  | O => XUns
+  | S f =>
+      match p_cat f s with
+      | XOk a (c :: r) =>
+          if N.eqb c 124 then
+            match p_alt f r with
+            | XOk b r2 => XOk (RAlt a b) r2
+            | e => e
+            end
+          else XOk a (c :: r)
+      | x => x
+      end
+  end
+with p_cat (fuel : nat) (s : str) : rp re :=
+  match fuel with
+  | O => XUns
+  | S f =>
+      match s with
+      | [] => XOk REps s
+      | c :: _ =>
+          if N.eqb c 41 || N.eqb c 124 then XOk REps s
+          else
+            match p_atom f s with
+            | XOk a r =>
+                match (if is_anchor a then XOk a r else p_quant a r) with
+                | XOk q r2 =>
+                    match p_cat f r2 with
+                    | XOk REps r3 => XOk q r3
+                    | XOk rest r3 => XOk (RCat q rest) r3
+                    | e => e
+                    end
+                | e => e
+                end
+            | e => e
+            end
+      end
+  end
+with p_atom (fuel : nat) (s : str) : rp re :=
+  match fuel with
+  | O => XUns
+  | S f =>
+      match s with
+      | [] => XBad
+      | c :: r =>
+          if N.eqb c 40 then
+            (* ( ... ) or (?: ... ) ; other (? forms are not modelled *)
+            let group := fun body : str =>
+              match p_alt f body with
+              | XOk a (d :: r2) => if N.eqb d 41 then XOk a r2 else XBad
+              | XOk _ [] => XBad
+              | e => e
+              end in
+            match r with
+            | c2 :: r' =>
+                if N.eqb c2 63 then
+                  match r' with
+                  | c3 :: r'' => if N.eqb c3 58 then group r'' else XUns
+                  | [] => XUns
+                  end
+                else group r
+            | [] => group r
+            end
+          else if N.eqb c 91 then
+            match r with
+            | c2 :: r' =>
+                if N.eqb c2 94 then
+                  match class_items (S (length r')) r' [] with XOk rs r2 => XOk (RClass true rs) r2 | XBad => XBad | XUns => XUns end
+                else
+                  match class_items (S (length r)) r [] with XOk rs r2 => XOk (RClass false rs) r2 | XBad => XBad | XUns => XUns end
+            | [] => XBad
+            end
+          else if N.eqb c 46 then XOk (RAny false) r
+          else if N.eqb c 94 then XOk RBegin r
+          else if N.eqb c 36 then XOk REnd r
+          else if N.eqb c 92 then
+            match r with
+            | e :: r2 => match esc_char e with Some x => XOk (RChar x) r2 | None => XUns end
+            | [] => XBad
+            end
+          else if N.eqb c 42 || N.eqb c 43 || N.eqb c 63 then XBad              (* nothing to repeat *)
+          else if N.eqb c 123 || N.eqb c 125 || N.eqb c 93 then XUns             (* literal braces / bracket: not modelled *)
+          else XOk (RChar c) r
+      end
+  end.
+
+Definition parse_fuel (s : str) : nat := 3 * length s + 4.
+Definition re_parse (p : str) : pres :=
+  match p_alt (parse_fuel p) p with
+  | XOk r [] => PValid r
+  | XOk _ (_ :: _) => PInvalid          (* stopped at an unmatched ')' *)
+  | XBad => PInvalid
+  | XUns => PUnsupported
+  end.
+
+(* ---------- semantics: sets of end positions ---------- *)
+Fixpoint in_ranges (c : N) (rs : list (N * N)) : bool :=
+  match rs with [] => false | (lo, hi) :: r => (N.leb lo c && N.leb c hi) || in_ranges c r end.
+
+Fixpoint nodup_nat (l : list nat) : list nat :=
+  match l with [] => [] | x :: r => if existsb (Nat.eqb x) r then nodup_nat r else x :: nodup_nat r end.
+
+Section Ends.
+  Variable s : str.
+  Definition char_at (i : nat) : option N := nth_error s i.
+
+  (* all positions reachable from [i] by zero or more applications of [f] (at most [fuel] rounds) *)
+  Fixpoint closure (f : nat -> list nat) (fuel : nat) (frontier seen : list nat) : list nat :=
+    match fuel with
+    | O => seen
+    | S k =>
+        let next := nodup_nat (List.filter (fun j => negb (existsb (Nat.eqb j) seen)) (flat_map f frontier)) in
+        match next with
+        | [] => seen
+        | _ => closure f k next (seen ++ next)
+        end
+    end.
+
+  Fixpoint iter_ends (f : nat -> list nat) (n : nat) (from : list nat) : list nat :=
+    match n with O => from | S k => iter_ends f k (nodup_nat (flat_map f from)) end.
+
+  Fixpoint ends (r : re) (i : nat) : list nat :=
+    match r with
+    | RChar c => match char_at i with Some d => if N.eqb c d then [S i] else [] | None => [] end
+    | RAny cr => match char_at i with
+                 | Some d => if N.eqb d 10 || (cr && N.eqb d 13) then [] else [S i]
+                 | None => []
+                 end
+    | RClass neg rs => match char_at i with
+                       | Some d => if xorb neg (in_ranges d rs) then [S i] else []
+                       | None => []
+                       end
+    | REps => [i]
+    | RCat a b => nodup_nat (flat_map (ends b) (ends a i))
+    | RAlt a b => nodup_nat (ends a i ++ ends b i)
+    | RStar a => closure (ends a) (S (length s)) [i] [i]
+    | RPlus a => let first := nodup_nat (ends a i) in closure (ends a) (S (length s)) first first
+    | ROpt a => nodup_nat (i :: ends a i)
+    | RRep a lo hi =>
+        let base := iter_ends (ends a) lo [i] in
+        match hi with
+        | None => closure (ends a) (S (length s)) base base
+        | Some h =>
+            (fix more (k : nat) (cur acc : list nat) : list nat :=
+               match k with
+               | O => acc
+               | S k' => let nxt := nodup_nat (flat_map (ends a) cur) in more k' nxt (nodup_nat (acc ++ nxt))
+               end) (Nat.sub h lo) base base
+        end
+    | RBegin => if Nat.eqb i 0 then [i] else []
+    | REnd => if Nat.eqb i (length s) then [i] else []
+    end.
+
+  (* Regex::find(s).is_some() / is_match: some substring matches *)
+  Definition search (r : re) : bool :=
+    existsb (fun i => match ends r i with [] => false | _ => true end) (seq 0 (S (length s))).
+  (* the entire string matches *)
+  Definition full (r : re) : bool := existsb (Nat.eqb (length s)) (ends r 0).
+End Ends.
+
+(* the I-Regexp reading of '.' excludes CR as well as LF (RFC 9485 section 5.3) *)
+Fixpoint dot_cr (r : re) : re :=
+  match r with
+  | RAny _ => RAny true
+  | RCat a b => RCat (dot_cr a) (dot_cr b)
+  | RAlt a b => RAlt (dot_cr a) (dot_cr b)
+  | RStar a => RStar (dot_cr a)
+  | RPlus a => RPlus (dot_cr a)
+  | ROpt a => ROpt (dot_cr a)
+  | RRep a lo hi => RRep (dot_cr a) lo hi
+  | x => x
+  end.
+
+(* ---------- the two sides ---------- *)
+(* model of the crate: Regex::new(pattern).map(|re| re.find(subject).is_some()) *)
+Definition rx_model_search (pat subject : str) : option bool :=
+  match re_parse pat with
+  | PValid r => Some (search subject r)
+  | PInvalid => None
+  | PUnsupported => None
+  end.
+(* specification (RFC 9535 2.4.6 / 2.4.7): false unless the pattern is a valid regular expression
+   of the dialect; match = the entire string, search = some substring.  The dialect's '.' is the
+   one of the `regex` crate (every character but LF); RFC 9485 also excludes CR: where that makes
+   a difference is the known class D25 ([rx_strict_*] below give the RFC 9485 reading). *)
+Definition rx_spec_full (pat subject : str) : bool :=
+  match re_parse pat with PValid r => full subject r | _ => false end.
+Definition rx_spec_sub (pat subject : str) : bool :=
+  match re_parse pat with PValid r => search subject r | _ => false end.
+Definition rx_strict_full (pat subject : str) : bool :=
+  match re_parse pat with PValid r => full subject (dot_cr r) | _ => false end.
+Definition rx_strict_sub (pat subject : str) : bool :=
+  match re_parse pat with PValid r => search subject (dot_cr r) | _ => false end.
+(* is the pattern inside the modelled dialect? (the checks skip the others) *)
+Definition rx_supported (pat : str) : bool :=
+  match re_parse pat with PUnsupported => false | _ => true end.
